@@ -2947,6 +2947,7 @@ def r08_16(prog, rep, rid='R08.16'):
             continue
         conds = list(k[1]) + [(g.nodes[t].ast, lab == 'T')
                               for t, lab in guards(g, H.id, within=region)]
+        conds += _invariant_guards(f, g, H, al)
         seen, bad = set(), False
         for atom, pol in conds:
             key = (unparse(atom), pol)
@@ -3040,6 +3041,59 @@ def r08_16(prog, rep, rid='R08.16'):
         if not bad:
             rep.ok(rid, f, '%s visits every queue of %s whenever tasks may '
                    'be held back' % (where, root), f.loc(it))
+
+
+def _invariant_guards(f, g, H, al):
+    """[(atom, polarity)] tests inside the body of the search loop H which
+    every removal from the backlog in that body depends on and which do not
+    depend on the current queue (nor on anything bound in the body): such a
+    test skips the search of every queue alike, as if it stood in front of the
+    loop.  Tests on the current queue / task are the selection itself."""
+    if H.kind != 'for':
+        return []
+    body = g.loop_body[H.id]
+    inner = set(stores_in_target(H.ast.target))
+    for x in walk(H.ast, nested=True):
+        if isinstance(x, (ast.For, ast.comprehension)):
+            inner |= set(stores_in_target(x.target))
+        elif isinstance(x, ast.Assign):
+            for t in x.targets:
+                inner |= set(stores_in_target(t))
+        elif isinstance(x, (ast.AnnAssign, ast.NamedExpr, ast.AugAssign)):
+            inner |= set(stores_in_target(x.target))
+    smap = I.stmt_node_map(g)
+    rem = []
+    for x in walk(H.ast, nested=True):
+        hit = False
+        if isinstance(x, ast.Call) and isinstance(x.func, ast.Attribute) and \
+                x.func.attr in ('remove', 'pop', 'clear') and \
+                al.is_rooted_expr(f.name, x.func.value):
+            hit = True
+        elif isinstance(x, ast.Delete) and any(
+                isinstance(t, ast.Subscript) and
+                al.is_rooted_expr(f.name, t.value) for t in x.targets):
+            hit = True
+        elif isinstance(x, ast.Assign) and any(
+                isinstance(t, ast.Subscript) and
+                al.is_rooted_expr(f.name, t.value) for t in x.targets):
+            hit = True
+        if hit and id(x) in smap and smap[id(x)].id in body and \
+                smap[id(x)] not in rem:
+            rem.append(smap[id(x)])
+    if not rem:
+        return []
+    common = None
+    for m in rem:
+        gs = set(guards(g, m.id, within=body))
+        common = gs if common is None else common & gs
+    out = []
+    for t, lab in sorted(common):
+        tn = g.nodes[t]
+        reads = reads_through_defs(g, tn.ast, tn)
+        if reads & inner:
+            continue
+        out.append((tn.ast, lab == 'T'))
+    return out
 
 
 def guard_atoms_of(g, node):
@@ -3172,7 +3226,7 @@ def run(prog, rep, tier):
         "and executor class (evaluated on the module / class names and the "
         "component kinds of the factory table).  R08.14: loops that serve "
         "the uids of a request are not left from within an iteration on "
-        "account of the current uid.  R08.5 also covers lazily evaluated "
+        "account of the current uid.  R08.16: the loop which searches the raptor backlog for the named tasks visits every queue of it, skipped at most while the backlog or the request is empty.  R08.5 also covers lazily evaluated "
         "iterables (generator expression, filter, enumerate ..) over a "
         "container the loop body changes.  R08.15 (= R05.13 re-evaluated): "
         "the client replay of a CANCELED notification ends with CANCELED.")
@@ -3233,6 +3287,7 @@ _RAP = "                for queue in self._raptor_tasks:\n                    ma
 _ARB = "        with self._check_lock:\n            if tid not in self._tasks:\n                return\n            try:\n                del self._tasks[tid]\n            except KeyError:\n                pass\n"
 _CBR = "                    for uid in data:\n                        for priority in self._waitpool:\n                            task = self._waitpool[priority].get(uid)\n                            if task:\n                                to_cancel.append(task)\n                                del self._waitpool[priority][uid]\n                                break\n"
 
+_RAPL = "                for queue in self._raptor_tasks:\n"
 _HND = "            if 'agent.scheduler' in repr(self) or \\\n               'agent.executing' in repr(self):\n                self.control_cb(topic, msg)\n                return\n"
 _EXL = "            for tid in arg['uids']:\n                task = self.get_task(tid)\n                if task:\n                    self.cancel_task(task)\n"
 _PSD = "                        passed = passed[-1:]\n"
@@ -3425,6 +3480,24 @@ MUTATIONS = [
         (_T, _PSD, "                        passed = passed[:1]\n")]),
     dict(name='R08.15 client replay: the last state popped off', rules=('R08.15',), edits=[
         (_T, _PSD, "                        passed.pop()\n")]),
+    dict(name='R08.16 raptor backlog only searched while no raptor queue is registered (seed C08-i6)', rules=('R08.16',), edits=[
+        (_S, _RAPL, "                backlog = self._raptor_tasks if not self._raptor_queues else []\n                for queue in backlog:\n")]),
+    dict(name='R08.16 raptor backlog search under `if not self._raptor_queues`', rules=('R08.16',), edits=[
+        (_S, _RAP, "                if not self._raptor_queues:\n                    for queue in self._raptor_tasks:\n                        matches = [t for t in self._raptor_tasks[queue]\n                                           if t['uid'] in uids]\n                        for task in matches:\n                            to_cancel.append(task)\n                            self._raptor_tasks[queue].remove(task)\n")]),
+    dict(name='R08.16 early return from the cancel branch when a raptor queue is registered', rules=('R08.16',), edits=[
+        (_S, "            # also cancel any raptor tasks we know about\n", "            if len(self._raptor_queues) > 0:\n                return\n")]),
+    dict(name='R08.16 backlog bound to the empty dict unless no queue is registered', rules=('R08.16',), edits=[
+        (_S, _RAPL, "                backlog = dict()\n                if not self._raptor_queues:\n                    backlog = self._raptor_tasks\n                for queue in backlog:\n")]),
+    dict(name='R08.16 only the first queue of the raptor backlog is searched', rules=('R08.16',), edits=[
+        (_S, _RAPL, "                for queue in list(self._raptor_tasks)[:1]:\n")]),
+    dict(name='R08.16 raptor backlog searched only when it is empty', rules=('R08.16',), edits=[
+        (_S, _RAPL, "                for queue in (self._raptor_tasks if not self._raptor_tasks else {}):\n")]),
+    dict(name='R08.13 hand-over by any() over the wrong module names', rules=('R08.13',), edits=[
+        (_U, _HND, "            me = repr(self)\n            if any(x in me for x in ['agent.scheduling', 'agent.executing']):\n                self.control_cb(topic, msg)\n                return\n")]),
+    dict(name='R08.13 hand-over by all() instead of any()', rules=('R08.13',), edits=[
+        (_U, _HND, "            me = repr(self)\n            if all(x in me for x in ['agent.scheduler', 'agent.executing']):\n                self.control_cb(topic, msg)\n                return\n")]),
+    dict(name='R08.16 every queue of the backlog skipped inside the loop while a raptor queue is registered', rules=('R08.16',), edits=[
+        (_S, _RAPL, "                for queue in self._raptor_tasks:\n                    if self._raptor_queues:\n                        continue\n")]),
 ]
 
 SILENT = [
@@ -3561,4 +3634,26 @@ SILENT = [
         (_T, _PSD, "                        del passed[:-1]\n")]),
     dict(name='client replay: negative index spelled with len()', edits=[
         (_T, _PSD, "                        last = len(passed) - 1\n                        passed = passed[last:]\n")]),
+    dict(name='raptor backlog: searched through an alias bound first', edits=[
+        (_S, _RAPL, "                backlog = self._raptor_tasks\n                for queue in backlog:\n")]),
+    dict(name='raptor backlog: loop over a copy of the queue names', edits=[
+        (_S, _RAPL, "                for queue in list(self._raptor_tasks.keys()):\n")]),
+    dict(name='raptor backlog: search skipped when the backlog is empty', edits=[
+        (_S, _RAP, "                if self._raptor_tasks:\n                    for queue in self._raptor_tasks:\n                        matches = [t for t in self._raptor_tasks[queue]\n                                           if t['uid'] in uids]\n                        for task in matches:\n                            to_cancel.append(task)\n                            self._raptor_tasks[queue].remove(task)\n")]),
+    dict(name='raptor backlog: conditional expression on the backlog itself', edits=[
+        (_S, _RAPL, "                backlog = self._raptor_tasks if self._raptor_tasks else {}\n                for queue in backlog:\n")]),
+    dict(name='raptor backlog: `or {}` fallback on the loop domain', edits=[
+        (_S, _RAPL, "                for queue in (self._raptor_tasks or {}):\n")]),
+    dict(name='raptor backlog: sorted queue names', edits=[
+        (_S, _RAPL, "                names = sorted(self._raptor_tasks)\n                for queue in names:\n")]),
+    dict(name='hand-over identity test by any() over the two module names', edits=[
+        (_U, _HND, "            me = repr(self)\n            if any(x in me for x in ['agent.scheduler', 'agent.executing']):\n                self.control_cb(topic, msg)\n                return\n")]),
+    dict(name='hand-over identity test by any() over a tuple bound to a local, list comprehension', edits=[
+        (_U, _HND, "            kinds = ('agent.scheduler', 'agent.executing')\n            if any([k in repr(self) for k in kinds]):\n                self.control_cb(topic, msg)\n                return\n")]),
+    dict(name='hand-over identity test: not all(.. not in ..)', edits=[
+        (_U, _HND, "            me = repr(self)\n            if not all(x not in me for x in ['agent.scheduler', 'agent.executing']):\n                self.control_cb(topic, msg)\n                return\n")]),
+    dict(name='raptor backlog: empty queues skipped inside the loop', edits=[
+        (_S, _RAPL, "                for queue in self._raptor_tasks:\n                    if not self._raptor_tasks[queue]:\n                        continue\n")]),
+    dict(name='raptor backlog: queues whose master is registered skipped (they hold nothing)', edits=[
+        (_S, _RAPL, "                for queue in self._raptor_tasks:\n                    if queue in self._raptor_queues:\n                        continue\n")]),
 ]
